@@ -24,7 +24,11 @@ FRAGS = ["[Song]", "{", "}", "[SyncTrack]", "[Events]", "[ExpertSingle]", "[Foo]
          "  0 = TS 4 63", "  0 = N 5 0", "  0 = N 7 10", "  3 = N 4 99999999", "  0 = S 2 0", "  0 = E solo", "  0 = A 99999999",
          '  0 = E "lyric x"', "  Resolution = 0", "  Resolution = 192", "  Player2 = foo", "", "   ", " = ", "  0 = N 6 0", "  7 = S 2 3",
          "  99999999 = B 99999999", "  0 = TS 0 0", "  1 = TS 3", "  Offset = x", "  Resolution = 1", "  2 = N 0 5", "  2 = N 5 0", "  2 = N 7 0",
-         '  4 = E "section "', "[HardDrums]", "  0 = B 1", "  1 = B 0", "  Difficulty = 99999999"]
+         '  4 = E "section "', "[HardDrums]", "  0 = B 1", "  1 = B 0", "  Difficulty = 99999999",
+         # what one deleted or doubled character makes of an ordinary line: lone and doubled quotes, nothing after the separator
+         '  Album = "', '  Name = ""', '  Charter = """', "  Genre = ", '  Year = ", 2018', '  Resolution = "192"', '  Player2 = "', '  MusicStream = \'x\'',
+         '  5 = E "', '  5 = E ""', '  5 = E """', "  5 = E ", "  5 = N ", "  5 = S 2", "  0 = B", "  0 = B -1", "  0 = TS -4", "  0 = A", "  = B 120000", "0=B 120000",
+         "  0 = TS 4 ", "  0 = TS 4 2 1", "  0 = TS 4", "  0 = TS 4 2"]
 EDIT = '0123456789 =NSEBTA"[]{}x٣\t'
 
 
@@ -49,7 +53,7 @@ def mutate(rng: random.Random, lines):
             s = lines[i]
             if s:
                 k = rng.randrange(len(s))
-                lines[i] = s[:k] + rng.choice(EDIT) + s[k + 1:]
+                lines[i] = rng.choice([s[:k] + rng.choice(EDIT) + s[k + 1:], s[:k] + s[k + 1:], s[:k] + s[k] + s[k:]])
         else:
             lines[i] = rng.choice(FRAGS)
     return lines
